@@ -334,6 +334,18 @@ def gen_refined(ctx, add, other):
     # histories: the same good requests with and without malformed ones in between, on a fresh broker each
     for k in range(12 if not thorough else 120):
         gen_history(ctx, other, k)
+    # answers posted again and again for a poll that is still waiting (a proxy retrying /answer; no client was matched):
+    # every one of them gets a complete response, and so do the requests that follow
+    for k, (n, nat) in enumerate([(2, "unrestricted"), (3, "restricted"), (4, "unknown")] + ([(6, ""), (2, "restricted")] if thorough else [])):
+        sid = "dupans-%d" % k
+        view = [(sid, "standalone", nat or "unknown")]
+        evs = [dict(ev="P:%s:%s:%s" % (hx(sid.encode()), hx(b"standalone"), hx(nat.encode())), cls="good", view=list(view))]
+        for j in range(n):
+            raw = http_req("POST", "/answer", json.dumps({"Version": "1.0", "Sid": sid, "Answer": "a%d" % j}).encode())
+            evs.append(dict(ev="R:" + raw.hex(), cls="good", rq=raw.meta, view=list(view)))
+        raw = http_req("GET", "/debug")
+        evs.append(dict(ev="R:" + raw.hex(), cls="probe", rq=raw.meta, view=list(view)))
+        other("history-repeated-answer", "seq " + ";".join(e["ev"] for e in evs), dict(op="seq", hist=5000 + k, variant="full", events=evs))
     # repeated session ids over TCP: the same /proxy request again while the first is pending / matched / just answered;
     # every one of them must get a complete response within the protocol's 10 s wait (plus slack)
     k = 0
